@@ -31,6 +31,7 @@ def build(pc, E, canary=None):
     pc.add_functions(E, TARGETS)
     if canary is not None:
         return
+    bounded_report(pc, E)
     pc.assumptions += ['floats (durations, timestamps) are opaque', 'random.random() is in [0, 1)',
                        'a content_type attribute of an exception, when present, is a str',
                        'attribute tables of Response / HTTPException instances by reflection of the installed Werkzeug']
@@ -42,3 +43,29 @@ def concretise(pc, it):
     if it is not None and 'Reservoir.add' in (it.func or ''):
         return {'script': 'reservoir_case.py', 'case': {'ops': [['new', 2], ['add', 3], ['resize', 10], ['add', 40]]}}
     return None
+
+
+def bounded_report(pc, E):
+    """bounded stand-in (labelled bounded): the reporting functions (_get_route_stats / get_stats_dict) are
+    not under contract (boltons Stats.describe, datetime); the native harness checks that the reported
+    count is the number of requests even when the sample store is smaller"""
+    import json
+    import os
+    from pyvc.run import native, HERE
+    case = {'mw': 'stats', 'requests': REQS}
+    try:
+        out = native('mw_case.py', case, repo_root=E.repo.root)
+    except Exception as e:
+        pc.errors.append('bounded stand-in (stats report) crashed: %r' % (e,))
+        return
+    pc.bounded.append({'what': 'stats middleware on a real application: per-route per-status counts for 8 request kinds; '
+                               'reported count == requests served after the sample stores were shrunk below it',
+                       'bound': 'fixed request list', 'cases': len(REQS) + 5, 'failures': 1 if out.get('fails') else 0,
+                       'label': 'bounded'})
+    if out.get('fails'):
+        fn = 'replays/C19-bounded-report.json'
+        os.makedirs(os.path.join(HERE, 'replays'), exist_ok=True)
+        with open(os.path.join(HERE, fn), 'w') as f:
+            json.dump({'property': 'C19', 'obligation': 'C19.B/stats-report (bounded stand-in)',
+                       'concretised_input': {'script': 'mw_case.py', 'case': case}, 'native_observation': out}, f, indent=1)
+        pc.violations.append(('C19.B/stats-report', fn, True))
